@@ -31,6 +31,8 @@ def _is_param(x):
         return None
     if type(x) is Term and x.arity == 0:
         return sym.CUR.params.get(x.functor)
+    if type(x) is Constant and isinstance(x.functor, SymReal):
+        return x.functor
     if type(x) is Constant and type(x.functor) in (float, int):
         # numeric constants are exact rationals during a symbolic run (no float rounding)
         return SymReal.lift(x.functor)
